@@ -17,7 +17,7 @@ RULE = ('reactions assembled from corpus / curated molecules: products derived f
 ASSUMPTIONS = ['CachedMethods compatibility shim', 'molecules inside one reaction carry disjoint atom numbers except mapped '
                'reactant/product pairs (as the reaction reader produces them)']
 CONFIG = {
-    'quick': {'shards': 16, 'budget_s': 120, 'n': 4000,
+    'quick': {'shards': 16, 'budget_s': 300, 'n': 4000,
               'floors': {'evaluations': 8000, 'distinct_nontrivial': 1200, 'cgr.compared': 1400, 'cgr.dynamic-bonds-checked': 1500,
                          'cgr.identical-sides': 150, 'order.permutations': 1500, 'readback.compared': 1400, 'readback.empty-role': 100,
                          'cgr.renumbered': 1200}},
